@@ -2,12 +2,25 @@
    what each server did (panic / no reply / the reply, section by section);
    spec_ok = no panic, and whatever was written is packable, has the query's ID and question
    and the QR bit, BADVERS (16) exactly for an EDNS version other than 0, and no option other
-   than the client-subnet echo (unknown options are ignored). *)
+   than the client-subnet echo (unknown options are ignored); over UDP the packed reply is no longer
+   than max(512, advertised size), no record is added, and TC is set whenever records were dropped. *)
 From DnsV Require Export Base.Bytes Model.Store Model.LookupV1 Model.LookupV2 Model.Serve Spec.Answer Spec.Rows Run.Core.
 Open Scope N_scope.
 
-Definition case := fcase.
-Definition model_ok (c : case) : bool := serve_model_ok c.
+(* what one backend wrote for a query received over UDP: the limit is max(512, advertised EDNS
+   size); the length is that of the message packed as the server packs it; the record counts
+   (without OPT) of this reply and of the reply to the same query over TCP, where nothing is dropped *)
+Record udpobs := mkU { u_limit : N; u_len : N; u_written : bool; u_tc : bool; u_n : N; u_ntcp : N;
+                       u_panic : bool; u_packerr : bool }.
+Record case := mkC { c_file : fcase; c_udp : list (list udpobs) }.     (* per query, per backend *)
+Definition model_ok (c : case) : bool := serve_model_ok (c_file c).
+
+(* within the size the client advertised, or else truncated with TC set *)
+Definition udp_ok (u : udpobs) : bool :=
+  negb (u_panic u) &&
+  (if u_written u then
+     negb (u_packerr u) && (u_len u <=? u_limit u) && (u_n u <=? u_ntcp u) && (u_tc u || (u_n u =? u_ntcp u))
+   else true).
 
 Definition wants_badvers (q : query) : bool :=
   match q_edns q with Some (Npos _) => true | _ => false end.
@@ -24,8 +37,11 @@ Definition obs_wellformed (q : query) (ob : obs) : bool :=
       forallb (fun c => c =? 8) (p_optcodes p)
   end.
 Definition spec_ok (c : case) : bool :=
-  if f_compiled c then forallb (fun q => forallb (obs_wellformed (qc_q q)) (qc_obs q)) (f_qs c) else true.
+  (if f_compiled (c_file c)
+   then forallb (fun q => forallb (obs_wellformed (qc_q q)) (qc_obs q)) (f_qs (c_file c)) else true) &&
+  forallb (forallb udp_ok) (c_udp c).
 
 Definition model_out (c : case) :=
-  (bad_idx (query_model_ok c) (f_qs c),
-   bad_idx (fun q => forallb (obs_wellformed (qc_q q)) (qc_obs q)) (f_qs c)).
+  (bad_idx (query_model_ok (c_file c)) (f_qs (c_file c)),
+   bad_idx (fun q => forallb (obs_wellformed (qc_q q)) (qc_obs q)) (f_qs (c_file c)),
+   bad_idx (forallb udp_ok) (c_udp c)).
